@@ -7,6 +7,7 @@
      D ...                                   | OK frame nbuf buf.. | type stream fn w sid id hdr | <decode> | reser
      C <factory> args                        | ERR  or  OK frame reply type nbuf buf.. | <decode> | reser
      R baseframe k op..                      | frame
+     Q baseframe k op..                      | wire bytes of sibling 0..k (frame buffers concatenated)
      B baseframe bodyok k op..               | E <class>  or  OK frame
      H hdr kind body                         | E <P|S|S'|I|R> or OK frame
      W selreq sid s0..s3 | frame ;  W sepreq sid s0..s3 | frame ; W ltreq s0..s3 | frame
@@ -142,6 +143,14 @@ let model_of_lhs (l : string list) : string =
     let m = msg_of_frame_hex base in
     let ops = take (int_of_string k) ops in
     hx (to_bytes (stamp_chain m (List.map stamp_of ops)))
+  | "Q" :: base :: k :: ops ->
+    (* a message and its re-stamped siblings, each through the frame-buffer builder: the i-th
+       sibling is the chain prefix of length i; framing order is irrelevant in the model *)
+    let m = msg_of_frame_hex base in
+    let ops = List.map stamp_of (take (int_of_string k) ops) in
+    let rec upto i = if i > List.length ops then [] else
+        hx (List.concat (frame_buffers (stamp_chain m (take i ops)))) :: upto (i + 1) in
+    String.concat " " (upto 0)
   | "B" :: base :: ok :: k :: ops ->
     (match msg_of_frame_hex base with
      | MData d ->
